@@ -118,6 +118,10 @@ impl GseDecapMemory for SimpleGseMemory {
 
     fn new_frag(&mut self, context: DecapContext) -> Result<MemoryContext, DecapMemoryError> {
         let frag_id = context.frag_id;
+        // a memory without slot can not hold any fragment
+        if self.max_frag_id == 0 {
+            return Err(DecapMemoryError::StorageUnderflow);
+        }
         let idx = frag_id as usize % self.max_frag_id;
 
         let mut frag: Option<MemoryContext> = None;
@@ -133,6 +137,9 @@ impl GseDecapMemory for SimpleGseMemory {
     }
 
     fn take_frag(&mut self, frag_id: u8) -> Result<MemoryContext, DecapMemoryError> {
+        if self.max_frag_id == 0 {
+            return Err(DecapMemoryError::UndefinedId);
+        }
         let idx = frag_id as usize % self.max_frag_id;
 
         // the slot may hold the context of another frag id: leave it in place
@@ -152,6 +159,9 @@ impl GseDecapMemory for SimpleGseMemory {
 
     fn save_frag(&mut self, context: MemoryContext) -> Result<(), DecapMemoryError> {
         let (decap_context, pdu) = context;
+        if self.max_frag_id == 0 {
+            return Err(DecapMemoryError::MemoryCorrupted);
+        }
         let idx = decap_context.frag_id as usize % self.max_frag_id;
 
         match self.frags[idx] {
